@@ -262,6 +262,7 @@ pub fn run(ctx: &Ctx) -> i32 {
             plonk_subject(ctx, &a);
         }
     }
+    circuit_digest_section(ctx);
     crate::c04s::run_stark(ctx);
     ctx.finish(Finish {
         level: "model_checking",
@@ -274,6 +275,85 @@ pub fn run(ctx: &Ctx) -> i32 {
         ],
         extra: json!({}),
     })
+}
+
+/// The statement's first transcript component is the circuit digest. It must be the documented function
+/// of the circuit: hash_no_pad(constants-sigmas cap || hash_pad(domain separator) || degree bits), so that
+/// every domain separator (lengths on both sides of the pad10*1 block boundary) gives its own digest.
+fn circuit_digest_section(ctx: &Ctx) {
+    use plonky2::field::types::PrimeField64;
+    let progs = subject_programs();
+    let (prog, _) = &progs[0];
+    let cfg = floor_config(8);
+    let seps: Vec<(&str, Option<Vec<u64>>)> = vec![
+        ("none", None),
+        ("empty", Some(vec![])),
+        ("len1-zero", Some(vec![0])),
+        ("len1-one", Some(vec![1])),
+        ("len2", Some(vec![1, 0])),
+        ("len6", Some(vec![1, 2, 3, 4, 5, 6])),
+        ("len7", Some(vec![1, 2, 3, 4, 5, 6, 1])),
+        ("len7b", Some(vec![1, 2, 3, 4, 5, 6, 7])),
+        ("len8", Some(vec![1, 2, 3, 4, 5, 6, 7, 0])),
+        ("len9", Some(vec![1, 2, 3, 4, 5, 6, 7, 0, 1])),
+        ("len15", Some((1..=15).collect())),
+        ("len16", Some((1..=16).collect())),
+    ];
+    let pad = |m: &[u64]| -> Vec<u64> {
+        let mut v = m.to_vec();
+        v.push(1);
+        while (v.len() + 1) % 8 != 0 {
+            v.push(0);
+        }
+        v.push(1);
+        v
+    };
+    let mut digests: Vec<(String, Vec<u64>, Vec<u64>)> = Vec::new();
+    for (tag, sep) in &seps {
+        let case = format!("circuit-digest separator={tag}");
+        let sepf: Option<Vec<F>> = sep.as_ref().map(|v| v.iter().map(|x| fe(*x)).collect());
+        let built = match guarded(|| {
+            build_program_with::<PC>(prog, &cfg, &|b| {
+                if let Some(s) = &sepf {
+                    b.set_domain_separator(s.clone());
+                }
+            })
+        }) {
+            Ok(b) => b,
+            Err(p) => {
+                ctx.machinery_error(format!("{case}: build failed: {p}"));
+                continue;
+            }
+        };
+        let d: Vec<u64> = built.data.verifier_only.circuit_digest.elements.iter().map(|x| x.to_canonical_u64()).collect();
+        let msg = pad(sep.as_deref().unwrap_or(&[]));
+        ctx.case("circuit-digest:formula", &case, || {
+            let cap: Vec<u64> = built.data.verifier_only.constants_sigmas_cap.0.iter().flat_map(|h| h.elements.iter().map(|x| x.to_canonical_u64())).collect();
+            let mut parts = cap;
+            parts.extend(ref_hash_no_pad(&msg, 4));
+            parts.push(built.data.common.degree_bits() as u64);
+            let want = ref_hash_no_pad(&parts, 4);
+            if want != d {
+                return Err(format!("circuit digest {d:?} != reference hash_no_pad(cap || hash_pad(separator) || degree_bits) {want:?}"));
+            }
+            Ok("circuit-digest:formula".into())
+        });
+        ctx.transition(1);
+        digests.push((tag.to_string(), msg, d));
+    }
+    for i in 0..digests.len() {
+        for j in i + 1..digests.len() {
+            let case = format!("circuit-digest distinct {} {}", digests[i].0, digests[j].0);
+            ctx.case("circuit-digest:separator-binding", &case, || {
+                let same_msg = digests[i].1 == digests[j].1;
+                let same_digest = digests[i].2 == digests[j].2;
+                if same_msg != same_digest {
+                    return Err(format!("separators {} / {}: padded messages equal = {same_msg}, digests equal = {same_digest}", digests[i].0, digests[j].0));
+                }
+                Ok(format!("circuit-digest:{}", if same_msg { "same-separator-same-digest" } else { "distinct" }))
+            });
+        }
+    }
 }
 
 pub fn _unused(_v: Value) {}
